@@ -8,7 +8,7 @@ use proptest::prelude::*;
 use serde::{Deserialize, Serialize};
 use serde_json::json;
 
-const RULE13: &str = "cases = (original string, base offset for with_start_offset, sequence of Parser operations with arguments); C13 oracle after every Ok step: remainder() is exactly original[start_offset-base .. end_offset-base] (same address), both offsets are char boundaries, the new remainder lies inside the previous one and the end the operation does not work from is unchanged, parse_direction() names the operation's end; after every Err: error offset == the start offset (from-start ops) / end offset (from-end ops) the parser reported before the call and error_direction() names that end; non-trivial = history mixing a from-start and a from-end op that both moved an end, or an error raised with base != 0, or a two-sided trim removing from both ends; distinct by (original, base, history)";
+const RULE13: &str = "cases = (original string, base offset for with_start_offset, sequence of Parser operations with arguments); C13 oracle after every Ok step: remainder() is exactly original[start_offset-base .. end_offset-base] (same address), both offsets are char boundaries, the new remainder lies inside the previous one and the end the operation does not work from is unchanged, parse_direction() names the operation's end; after every Err: error offset == the start offset (from-start ops) / end offset (from-end ops) the parser reported before the call and error_direction() names that end, and its Display text / ParseError::panic message name that offset; after every step the errors a user-written parsing function builds from the parser (into_error, into_other_error, ParseError::new/other_error) carry the offset of the end named by parse_direction(); non-trivial = history mixing a from-start and a from-end op that both moved an end, or an error raised with base != 0, or a two-sided trim removing from both ends; distinct by (original, base, history)";
 const RULE14: &str = "cases = (original string, base offset, sequence of Parser operations); C14 oracle per step = a model that applies the std string function to the previous remainder (strip_prefix/suffix, trim_ascii*, trim_*_matches, find/rfind, split_once/rsplit_once, the integer/bool prefix scanner): Ok <=> the function finds something, returned value and new remainder equal the model's (by address), Err returns no parser; split/rsplit/split_keep yield the final piece once and then ErrorKind::SplitExhausted, split_terminator/rsplit_terminator need a delimiter; plus whole-protocol runs: repeating split(p)/rsplit(p) == str::split/rsplit pieces then SplitExhausted, split_terminator/rsplit_terminator == each piece followed/preceded by a delimiter then Err; non-trivial = history of >= 2 ops where some op failed and a later one succeeded, or a split protocol reaching its last piece, or an op mixing ends; distinct by (original, base, history)";
 
 #[derive(Serialize, Deserialize, Debug, Clone, Hash, PartialEq)]
@@ -538,6 +538,15 @@ pub fn run_case(c: &Case, c13: bool, w: &mut Walk) -> Result<(), String> {
                         e.offset()
                     );
                     ensure!(e.error_direction() == dir_of(end), "step {i} {op:?} failed: error_direction() = {:?}, expected {:?}", e.error_direction(), dir_of(end));
+                    // the two renderings of the error (Display, and the panic unwrap_ctx! raises) name that offset
+                    // (checked on the last step of a history only: every prefix of an enumerated history is a case of its own)
+                    let text = if i + 1 == c.ops.len() { e.to_string() } else { format!(" {want} byte offset") };
+                    ensure!(text.contains(&format!(" {want} byte offset")), "step {i} {op:?} failed: Display {text:?} does not name offset {want}");
+                    let e2 = e.copy();
+                    if i + 1 == c.ops.len() { match kvh::catch(move || -> () { e2.panic() }) {
+                        Ok(()) => return Err(format!("step {i} {op:?}: ParseError::panic returned")),
+                        Err(msg) => ensure!(msg.contains(&format!(" {want} byte offset")), "step {i} {op:?} failed: panic message {msg:?} does not name offset {want}"),
+                    } }
                     if base != 0 {
                         w.err_with_base = true;
                     }
@@ -558,6 +567,46 @@ pub fn run_case(c: &Case, c13: bool, w: &mut Walk) -> Result<(), String> {
                 m = pre_m;
                 p = keep;
             }
+        }
+        if c13 {
+            user_errors(&p, i, i + 1 == c.ops.len())?;
+        }
+    }
+    if c13 && c.ops.is_empty() {
+        user_errors(&p, usize::MAX, true)?;
+    }
+    Ok(())
+}
+
+/// errors a user-written parsing function builds "for this point in parsing" (Parser::into_error /
+/// into_other_error, ParseError::new / other_error): they must name the end the parser was last
+/// advanced from and carry that end's offset, exactly like the errors of the built-in operations
+fn user_errors(p: &Parser<'_>, i: usize, render: bool) -> Result<(), String> {
+    static MSG: &str = "custom message";
+    let (s, e, d) = (p.start_offset(), p.end_offset(), p.parse_direction());
+    let errs = [
+        ("into_error", p.into_error(ErrorKind::Strip), ErrorKind::Strip),
+        ("ParseError::new", ParseError::new(*p, ErrorKind::ParseInteger), ErrorKind::ParseInteger),
+        ("into_other_error", p.into_other_error(&MSG), ErrorKind::Other),
+        ("ParseError::other_error", ParseError::other_error(*p, &MSG), ErrorKind::Other),
+    ];
+    for (name, err, kind) in errs {
+        let ok = match d {
+            ParseDirection::FromStart => err.offset() == s,
+            ParseDirection::FromEnd => err.offset() == e,
+            ParseDirection::FromBoth => err.offset() == s || err.offset() == e,
+        };
+        ensure!(ok, "after step {i}: {name} on a parser with offsets {s}..{e} and direction {d:?} reports offset {}", err.offset());
+        ensure!(err.error_direction() == d, "after step {i}: {name} reports direction {:?}, the parser's is {d:?}", err.error_direction());
+        ensure!(err.kind() == kind, "after step {i}: {name} reports kind {:?}, expected {kind:?}", err.kind());
+        ensure!(err.copy() == err, "after step {i}: {name}: copy() differs from the error");
+        if !render {
+            continue;
+        }
+        let text = err.to_string();
+        ensure!(text.contains(&format!(" {} byte offset", err.offset())), "after step {i}: {name}: Display {text:?} does not name offset {}", err.offset());
+        if kind == ErrorKind::Other {
+            ensure!(text.contains(MSG), "after step {i}: {name}: Display {text:?} lacks the custom message");
         }
     }
     Ok(())
